@@ -125,3 +125,28 @@ Theorem C03_dualproj_unregularised : forall n J s ne pref qp,
      dotR (vsubR x p) (vsubR x p) <= dotR (vsubR y p) (vsubR y p)).
 Proof. exact dualproj_unregularised_projection. Qed.
 Print Assumptions C03_dualproj_unregularised.
+
+(* ---- instance gap (added): the exact KKT certificate checked at QN by the correspondence IS the
+   certificate of the real-number theorem, and the executed UPGrad/DualProj models map to the real ones
+   for related QP oracles (Q2R preserves 0,1,+,-,*,/,<=,< and the embedding of naturals) ---- *)
+From Coq Require Import QArith Qreals.
+From TJ Require Import NumQ.
+From TJ.proofs Require Import TransferProofs TransferAggProofs.
+Theorem C03_kkt_certificate_transfers : forall G u w,
+  kktb RN (map (map Q2R) G) (map Q2R u) (map Q2R w) = kktb QN G u w.
+Proof. exact kktb_Q_to_R. Qed.
+Print Assumptions C03_kkt_certificate_transfers.
+Theorem C03_executed_upgrad_is_the_real_model : forall qpQ qpR,
+  (forall G u, qpR (map (map Q2R) G) (map Q2R u) = map Q2R (qpQ G u)) ->
+  forall pref s norm_eps reg_eps J,
+  agg_upgrad RN qpR (option_map (map Q2R) pref) (Q2R s) (Q2R norm_eps) (Q2R reg_eps) (map (map Q2R) J)
+  = match agg_upgrad QN qpQ pref s norm_eps reg_eps J with Ok v => Ok (map Q2R v) | Err e => Err e end.
+Proof. exact agg_upgrad_Q_to_R. Qed.
+Print Assumptions C03_executed_upgrad_is_the_real_model.
+Theorem C03_executed_dualproj_is_the_real_model : forall qpQ qpR,
+  (forall G u, qpR (map (map Q2R) G) (map Q2R u) = map Q2R (qpQ G u)) ->
+  forall pref s norm_eps reg_eps J,
+  agg_dualproj RN qpR (option_map (map Q2R) pref) (Q2R s) (Q2R norm_eps) (Q2R reg_eps) (map (map Q2R) J)
+  = match agg_dualproj QN qpQ pref s norm_eps reg_eps J with Ok v => Ok (map Q2R v) | Err e => Err e end.
+Proof. exact agg_dualproj_Q_to_R. Qed.
+Print Assumptions C03_executed_dualproj_is_the_real_model.
